@@ -152,7 +152,7 @@ impl TExec {
         if auth.is_fault() {
             ctx.count(&format!("F7.{}.{}", func, auth.name()));
         }
-        match resolve_auth(auth, c) {
+        match resolve_auth(&mut self.sim, auth, c) {
             None => (vec![], false),
             Some((w, other)) => (
                 vec![AuthEntry {
@@ -570,7 +570,7 @@ impl World for WorldT {
         }
         for _ in 0..n {
             let fault = f_auth && rng.chance(if p.focus == "C06" || p.focus == "C07" { 1 } else { 1 }, if p.focus == "C06" || p.focus == "C07" { 2 } else { 5 });
-            let user_auth = |rng: &mut Rng| if fault { *rng.pick(&[AuthVar::Counterparty, AuthVar::Owner, AuthVar::Stranger, AuthVar::Nobody, AuthVar::RightOtherArgs]) } else { AuthVar::Right };
+            let user_auth = |rng: &mut Rng| if fault { *rng.pick(&[AuthVar::Counterparty, AuthVar::Owner, AuthVar::Stranger, AuthVar::Nobody, AuthVar::RightOtherArgs]) } else if f_auth && rng.chance(1, 6) { AuthVar::Everyone } else { AuthVar::Right };
             let admin_auth = |rng: &mut Rng| if fault { *rng.pick(&[AuthVar::Former, AuthVar::OtherRole, AuthVar::Counterparty, AuthVar::Stranger, AuthVar::Nobody, AuthVar::RightOtherArgs]) } else { AuthVar::Right };
             let abort = opt_abort(rng, f_abort, 120);
             let op = match rng.weighted(&w) {
@@ -653,6 +653,7 @@ impl World for WorldT {
                 break;
             }
             ctx.step = i;
+            ex.sim.permissive_next = false;
             let eff = match op {
                 TOp::Resubmit { k } => {
                     if ex.history.is_empty() {
